@@ -3,6 +3,7 @@ CONSTANTS
   Component = "numbers"
   Precisions = {1, 4, 8, 12}
   NMixed = 0
+  NShards = 1
   DEV_XmlDropsHorn = FALSE
   DEV_ReaderStopsAtFirstUnset = FALSE
 INVARIANT Emit
